@@ -1161,6 +1161,11 @@ func (h *harness) invariants(step int) *kit.Result {
 	return nil
 }
 
+// zeroLen: the CID names a zero-length block of the pool (open finding keyEmpty).
+func (h *harness) zeroLen(ci int) bool {
+	return ci >= 0 && ci < len(h.c.Sizes) && h.c.Sizes[ci] == 0
+}
+
 // onEnvelope checks one envelope against the model state at build time and then does what
 // server.taskWorker does with it.
 func (h *harness) onEnvelope(step int, env *vb.Envelope) *kit.Result {
@@ -1183,6 +1188,11 @@ func (h *harness) onEnvelope(step int, env *vb.Envelope) *kit.Result {
 			k = keyStaleAck
 		} else if h.stray[pi][ci] {
 			k = keyEvicted
+		} else if h.zeroLen(ci) {
+			// the engine's view of a zero-length block is inconsistent (absent at intake,
+			// present at NotifyNewBlocks / send time): every anomaly about such a CID has
+			// that root cause
+			k = keyEmpty
 		}
 		return fail(k, format, a...)
 	}
@@ -1194,6 +1204,8 @@ func (h *harness) onEnvelope(step int, env *vb.Envelope) *kit.Result {
 			k = keyEvicted
 		} else if h.dropped[pi][ci] {
 			k = keyFull
+		} else if h.zeroLen(ci) {
+			k = keyEmpty
 		}
 		return fail(k, "step %d: %s for CID %d sent to peer %d, which does not (any longer) want it", step, kind, ci, pi)
 	}
